@@ -279,7 +279,7 @@ def step (st : St) (line : String) : St × Option String :=
       match i.toNat?.bind (st.types[·]?), reps.toNat? with
       | some t, some n =>
         let bytes := unhex h.toList
-        let status : String := match loader with
+        let status : String := if h == "DIR" then "err" else match loader with     -- a path that cannot be read: every loader fails
           | "full" => (match t.deFull H bytes with | .ok _ => "ok" | .err _ => "err" | .panic => "panic")
           | _ =>
             let l := match loader with | "mem" => Loader.mem | "mmap" => Loader.mmap | _ => Loader.map
